@@ -1745,14 +1745,10 @@ namespace bloch::runtime {
             for (int q : obj->ownedQubits) {
                 ensureQubitExists(q, 0, 0);
                 m_sim.reset(q);
-                // A handle copied out of the object ('qubit h = o.q;', a method returning
-                // this.q) may outlive it. The qubit is reset either way, but its index is only
-                // recycled when nothing can name it any more: otherwise the stale handle and the
-                // next declaration would share one simulator qubit.
-                if (qubitStillNamed(q, obj)) {
-                    unmarkMeasured(q);
-                    continue;
-                }
+                // A handle copied out of the object ('qubit h = o.q;', 'new A().q', a method
+                // returning this.q) may outlive it. Whether one does is decided when the index
+                // is about to be reused (allocateTrackedQubit), not here: at this point the
+                // handle may exist only in a value that is still being passed along.
                 releaseQubit(q);
             }
             obj->ownedQubits.clear();
@@ -3689,9 +3685,16 @@ namespace bloch::runtime {
 
     int RuntimeEvaluator::allocateTrackedQubit(const std::string& name) {
         int idx = -1;
-        if (!m_freeQubitIndices.empty()) {
-            idx = m_freeQubitIndices.back();
-            m_freeQubitIndices.pop_back();
+        // Reuse a released index only if no handle can still name it: otherwise the stale
+        // handle and this declaration would share one simulator qubit.
+        for (size_t k = m_freeQubitIndices.size(); k-- > 0;) {
+            if (qubitStillNamed(m_freeQubitIndices[k], nullptr))
+                continue;
+            idx = m_freeQubitIndices[k];
+            m_freeQubitIndices.erase(m_freeQubitIndices.begin() + static_cast<std::ptrdiff_t>(k));
+            break;
+        }
+        if (idx >= 0) {
             m_sim.reset(idx);
             unmarkMeasured(idx);
         } else {
@@ -3721,9 +3724,20 @@ namespace bloch::runtime {
                        v.qubitArray.end();
             return false;
         };
+        // An object that is being destroyed is no longer in m_heap but its destructor still
+        // reaches its fields through 'this', so objects bound in a scope are looked into.
+        auto namesWithFields = [&](const Value& v) {
+            if (names(v))
+                return true;
+            if (v.type == Value::Type::Object && v.objectValue && v.objectValue.get() != except)
+                for (const auto& f : v.objectValue->fields)
+                    if (names(f))
+                        return true;
+            return false;
+        };
         for (const auto& scope : m_env)
             for (const auto& kv : scope)
-                if (names(kv.second.value))
+                if (namesWithFields(kv.second.value))
                     return true;
         for (const auto& kv : m_classTable)
             if (kv.second)
